@@ -39,6 +39,7 @@ type c13GAttempt struct {
 	fields  []c13Field // request header block in wire order
 	payload string     // concatenated DATA payloads
 	frames  []string   // the non-empty DATA payloads, frame by frame (HTTP/2 peer only)
+	trailer []c13Field // request trailer block (HTTP/2 peer only)
 	live    *c13Live   // pacing of an interactive exchange (lane live), nil otherwise
 }
 
@@ -470,6 +471,10 @@ func (p *c13H2Peer) serve(c net.Conn) {
 					att.fields = append(att.fields, c13Field{hf.Name, hf.Value})
 				}
 				att.live = p.liveFor(att.fields)
+			} else {
+				for _, hf := range f.Fields {
+					att.trailer = append(att.trailer, c13Field{hf.Name, hf.Value})
+				}
 			}
 			if f.StreamEnded() {
 				respond(f.StreamID)
